@@ -206,8 +206,10 @@ type cacheBucket struct {
 }
 
 func (b cacheBucket) Get(key []byte) []byte {
-	if val := b.mb.Get(key); val != nil {
+	if val, ok := b.mb.db.puts[b.mb.name][string(key)]; ok {
 		return val
+	} else if _, ok := b.mb.db.dels[b.mb.name][string(key)]; ok {
+		return nil
 	}
 	return b.db.Get(key)
 }
